@@ -17,6 +17,14 @@ var logger = log.With().Str("component", "updater").Logger()
 
 // getLatestVersionFromGitHub checks the latest version on GitHub and returns it.
 func getLatestVersionFromGitHub() (*selfupdate.Release, error) {
+	_, latest, err := detectLatestVersionFromGitHub()
+	return latest, err
+}
+
+// detectLatestVersionFromGitHub checks the latest version on GitHub and returns it, together
+// with the updater that detected it. The updater is configured to validate downloaded assets against
+// the checksums of the release and must be used to perform the update.
+func detectLatestVersionFromGitHub() (*selfupdate.Updater, *selfupdate.Release, error) {
 	source, err := selfupdate.NewGitHubSource(selfupdate.GitHubConfig{})
 	if err != nil {
 		logger.Fatal().Err(err)
@@ -26,16 +34,16 @@ func getLatestVersionFromGitHub() (*selfupdate.Release, error) {
 		Validator: &selfupdate.ChecksumValidator{UniqueFilename: "crs-toolchain-checksums.txt"}, // checksum from goreleaser
 	})
 	if err != nil {
-		return nil, err
+		return nil, nil, err
 	}
 	latest, found, err := updater.DetectLatest(context.Background(), selfupdate.ParseSlug("coreruleset/crs-toolchain"))
 	if err != nil {
-		return latest, fmt.Errorf("error occurred while detecting version: %w", err)
+		return updater, latest, fmt.Errorf("error occurred while detecting version: %w", err)
 	}
 	if !found {
-		return latest, fmt.Errorf("latest version for %s/%s could not be found on GitHub repository", runtime.GOOS, runtime.GOARCH)
+		return updater, latest, fmt.Errorf("latest version for %s/%s could not be found on GitHub repository", runtime.GOOS, runtime.GOARCH)
 	}
-	return latest, nil
+	return updater, latest, nil
 }
 
 // LatestVersion checks the latest version on GitHub and returns it.
@@ -51,7 +59,7 @@ func LatestVersion() (string, error) {
 // Returns the version string of the updated release, or an error if something went wrong.
 func Updater(version string, executablePath string) (string, error) {
 	emptyVersion := ""
-	latest, err := getLatestVersionFromGitHub()
+	updater, latest, err := detectLatestVersionFromGitHub()
 	if err != nil {
 		return emptyVersion, err
 	}
@@ -71,7 +79,8 @@ func Updater(version string, executablePath string) (string, error) {
 		logger.Info().Msgf("Updating file \"%s\"", executablePath)
 	}
 
-	if err := selfupdate.UpdateTo(context.Background(), latest.AssetURL, latest.AssetName, executablePath); err != nil {
+	// Use the updater that detected the release: it validates the asset against the release checksums.
+	if err := updater.UpdateTo(context.Background(), latest, executablePath); err != nil {
 		return emptyVersion, fmt.Errorf("error occurred while updating binary: %w", err)
 	}
 	logger.Info().Msgf("Successfully updated to version %s", latest.Version())
